@@ -669,7 +669,7 @@ def units(tier, seed):
             if mode == 'order1' and kinds == ('grow', 'grow') and tier != 'thorough':
                 continue        # > 100 s (moment sums in both axes): thorough tier only
             u = unit_transpose_2d(mode, kinds)
-            u.timeout = 900 if tier == 'thorough' else 240
+            u.timeout = 3000 if tier == 'thorough' else 240
             us.append(u)
         us.append(unit_crop(mode))
     us.append(unit_errors())
